@@ -54,6 +54,41 @@ TRandH2 == /\ IsEvent("randh2")
            /\ Expect(Ev.overalloc = 0, "alloc-before-arrival")
            /\ UNCHANGED vars
 
-TraceNext == TH2 \/ THpack \/ TRandH2
+(* hpint{case,field,class,fill,target,n,runs,tailsame}: one HPACK integer field at a boundary of its type, behind a
+   dynamic table filled to `fill`, given to the bare decoder (out: ok|error) or inside a HEADERS frame to the
+   server-side / client-side framer (out: frame|error|again) *)
+FieldByName(nm) == CHOOSE f \in HpFields : f.name = nm
+THpInt == /\ IsEvent("hpint")
+          /\ Ev.class \in ClassSet /\ Ev.fill \in Fills /\ Ev.target \in HpTargets
+          /\ LET f == FieldByName(Ev.field)
+                 exp == HpIntExpect(f, Ev.class, Ev.fill)
+                 framer == Ev.target \in {"server-framer", "client-framer"} IN
+               /\ HpIntApplicable(f, Ev.class)
+               /\ \A i \in DOMAIN Ev.runs : LET r == Ev.runs[i] IN
+                    /\ Expect(r.out # "panic", "integer-panics")
+                    /\ Expect(r.out # "loop", "integer-loops")
+                    /\ Expect(~(exp = "error" /\ r.out \in {"ok", "frame"}), "malformed-integer-accepted")
+                    /\ Expect(~(exp = "error" /\ r.out = "again"), "complete-frame-not-decoded")
+                    /\ Expect(~(exp = "ok" /\ ~framer /\ r.out = "error"), "valid-integer-rejected")
+                    /\ Expect(~(exp = "ok" /\ framer /\ r.out = "again"), "complete-frame-not-decoded")
+                    /\ Expect(r.alloc <= AllocBound(Ev.n), "alloc-before-arrival")
+               /\ Expect(Ev.tailsame, "reads-outside-received-bytes")
+          /\ UNCHANGED vars
+
+(* fval{case,t,id,vname,target,n,runs,tailsame}: WINDOW_UPDATE increment / SETTINGS value at a boundary of its type *)
+TFval == /\ IsEvent("fval")
+         /\ \E x \in FrameValCases : x.t = Ev.t /\ x.id = Ev.id /\ x.vname = Ev.vname /\ x.target = Ev.target
+         /\ LET x == CHOOSE y \in FrameValCases : y.t = Ev.t /\ y.id = Ev.id /\ y.vname = Ev.vname /\ y.target = Ev.target IN
+              /\ \A i \in DOMAIN Ev.runs : LET r == Ev.runs[i] IN
+                   /\ Expect(r.out # "panic", "framer-panics")
+                   /\ Expect(r.out # "loop", "framer-loops")
+                   /\ Expect(~(x.expect = "error" /\ r.out = "frame"), "malformed-frame-accepted")
+                   /\ Expect(~(x.expect = "frame" /\ r.out = "error"), "valid-frame-rejected")
+                   /\ Expect(r.out # "again", "complete-frame-not-decoded")
+                   /\ Expect(r.alloc <= AllocBound(Ev.n), "alloc-before-arrival")
+              /\ Expect(Ev.tailsame, "reads-outside-received-bytes")
+         /\ UNCHANGED vars
+
+TraceNext == TH2 \/ THpack \/ TRandH2 \/ THpInt \/ TFval
 TraceSpec == TraceInit /\ [][TraceNext]_tvars
 ====
